@@ -696,6 +696,13 @@ func (a *Application) transformStreamAndWaitForProxy(
 	// transform stream (blocks until done)
 	transformErr := trans.TransformStreamingResponse(ctx, pipeReader, w, r)
 
+	// The translator gave up before the backend was done (malformed or oversized chunk, write
+	// error): nobody reads the pipe any more, so a proxy goroutine that is still relaying data
+	// would block in its next write for ever. Closing the read end fails that write instead.
+	if transformErr != nil {
+		pipeReader.CloseWithError(transformErr)
+	}
+
 	// Wait for proxy to complete
 	proxyErr := <-proxyErrChan
 
